@@ -124,6 +124,32 @@ func c03Case(c run.Ctx) (gen.Config, gen.Universe, []seq.Op, *rand.Rand) {
 	if r.IntN(4) == 0 {
 		cfg.Primary = gen.CID
 	}
+	if c.Index%16 == 5 || c.Tier == "burst" {
+		// burst history: far more than 1024 superseded locations between two flushes (in-memory
+		// pools and buffers must not spill to disk ahead of the commit order)
+		cfg.IndexFileSize, cfg.PrimaryFileSize = 4096, 65536
+		u := gen.MakeUniverse(r, cfg.Primary, 24+r.IntN(16))
+		var ops []seq.Op
+		vid := uint64(1)
+		for k := range u.Keys {
+			ops = append(ops, seq.Op{Kind: "put", K: k, VID: vid, VLen: 4 + r.IntN(20)})
+			vid++
+		}
+		ops = append(ops, seq.Op{Kind: "flush"})
+		for i := 0; i < 1100+r.IntN(300); i++ {
+			if r.IntN(10) == 0 {
+				ops = append(ops, seq.Op{Kind: "rm", K: r.IntN(len(u.Keys))})
+			} else {
+				ops = append(ops, seq.Op{Kind: "put", K: r.IntN(len(u.Keys)), VID: vid, VLen: 4 + r.IntN(20)})
+				vid++
+			}
+		}
+		if cfg.Primary == gen.MH && r.IntN(2) == 0 {
+			ops = append(ops, seq.Op{Kind: "gcp", A: 50})
+		}
+		ops = append(ops, seq.Op{Kind: "flush"}, seq.Op{Kind: "reopen", A: r.IntN(3), B: 1})
+		return cfg, u, ops, r
+	}
 	u := gen.MakeUniverse(r, cfg.Primary, 4+r.IntN(11))
 	p := seq.Profile{N: 30 + r.IntN(51), Keys: len(u.Keys), GC: cfg.Primary == gen.MH, GCLimit: r.IntN(3) == 0, Reopen: true, NoHuge: true, RemoveHeavy: r.IntN(2) == 0, Iter: r.IntN(3) == 0}
 	ops := seq.GenOps(r, p)
@@ -205,6 +231,10 @@ func runC03(c run.Ctx) *core.CaseResult {
 		if rc.Enabled {
 			rc.Capture("after-call")
 			rc.Enabled = false
+		} else if i%32 == 31 {
+			// calls that should not touch the disk are imaged too, now and then (identical images are dropped)
+			rc.Tag = allow.freeze()
+			rc.Capture("after-call")
 		}
 		switch o.Kind {
 		case "put", "rm":
